@@ -718,8 +718,11 @@ def norm(t, _arith=True):  # noqa: C901, PLR0911, PLR0912
             later = {k for k, _ in t[3]}
             merged = tuple(sorted([(k, v) for k, v in f[3] if k not in later] + list(t[3]), key=lambda kv: kv[0]))
             return norm(("call", f[2][0], tuple(f[2][1:]) + tuple(t[2]), merged))
-        if name == "builtins.range" and len(t[2]) == 2 and t[2][0] == ("const", 0) and not t[3]:
-            t = ("call", f, (t[2][1],), ())
+        if name in ("builtins.range", "jax.numpy.arange", "numpy.arange") and len(t[2]) == 2 and t[2][0] == ("const", 0) and not t[3]:
+            t = ("call", f, (t[2][1],), ())  # range(0, n) == range(n); the same for arange
+        if f[0] == "attr" and f[2] == "to_list":
+            t = ("call", ("attr", f[1], "tolist"), t[2], t[3])  # pandas' alias of tolist
+            f = t[1]
         if name in _ITER_CONSUMERS and t[2]:
             # the consumer only iterates its argument: a list/tuple copy or a list comprehension in place of a
             # generator makes no difference
